@@ -87,6 +87,8 @@ class AsyncWorld:
                     ret = e[1]
                 elif k == 'raise':
                     raise HandlerError(e[1] if len(e) > 1 else 'handler failure')
+                elif k == 'raise_type':
+                    raise TypeError('application bug inside the handler')
                 elif k == 'send':
                     await w.server.send(e[1], e[2])
                 elif k == 'disconnect':
@@ -109,6 +111,8 @@ class AsyncWorld:
                     ret = e[1]
                 elif k == 'raise':
                     raise HandlerError(e[1] if len(e) > 1 else 'handler failure')
+                elif k == 'raise_type':
+                    raise TypeError('application bug inside the handler')
                 elif k == 'yield':
                     pass
                 else:
